@@ -35,3 +35,11 @@ def run(ctx):
     ctx.floor("K15", 3)
     ctx.floor("K16", 3)
     ctx.floor("K17", 3)
+    # an equivalence walked backwards is the reversal of the original rule at the kept child's own position
+    from ..engines import varkind as VK
+    VK.v6b_kept_child_position(ctx)
+    ctx.floor("V6", 2)
+    # every single-child rule reaches the equivalence database as an edge (two-way: merged; one-way: recorded)
+    from ..engines import storekeys as SK
+    SK.w_insertion_discipline(ctx)
+    ctx.floor("W2", 3)
